@@ -1,7 +1,7 @@
 //@ module src/multistream_select/length_delimited.rs
 //@ harness c03_ld_read_length_step kind=proof tier=quick timeout=1800 covers=3
 //@ harness c03_ld_read_data_step kind=proof tier=quick timeout=1800 covers=2
-//@ harness c03_ld_write_buffer_step kind=proof tier=quick timeout=1800 covers=2
+//@ harness c03_ld_write_buffer_step kind=bounded tier=quick timeout=1800 covers=2 bound="write buffer of 0..=64 bytes, one carrier poll"
 //@ harness c03_ld_canary kind=canary tier=quick timeout=120
 //
 // C03 (transparency) / C19 — LengthDelimited<R>: the frame reader of the stream variant of multistream-select.
